@@ -1,11 +1,17 @@
 #!/bin/bash
-# Pre-build the harness (warms the Go build cache) from files on disk only.
+# Pre-build the harness (warms the Go build cache, normal and -race) from files on disk only.
 set -e
 export GOFLAGS=-mod=mod GOPROXY=off GOSUMDB=off GOTOOLCHAIN=local
 cd "$(dirname "$0")"
+V="$PWD"
 mkdir -p .work/setup evidence
 cp /repo/go.sum harness/go.sum
-python3 mkoverlay.py /repo "$PWD/harness/overlay" "$PWD/.work/setup" > .work/setup/overlay.json
-(cd harness && go build -tags verif -overlay ../.work/setup/overlay.json -o ../.work/setup/verifcheck ./cmd/verifcheck)
+cd harness
+go run ./cmd/verifgen -repo /repo -work "$V/.work/setup" -harness "$V/harness"
+go build -tags verif -overlay "$V/.work/setup/overlay.json" -o "$V/.work/setup/verifcheck" ./cmd/verifcheck
+go run ./cmd/verifgen -repo /repo -work "$V/.work/setup" -harness "$V/harness" -instrument
+go build -tags verif -overlay "$V/.work/setup/overlay.json" -o "$V/.work/setup/verifcheck" ./cmd/verifcheck
+go build -race -tags verif -overlay "$V/.work/setup/overlay.json" -o "$V/.work/setup/verifcheck-race" ./cmd/verifcheck
+cd "$V"
 rm -rf .work/setup
 echo setup ok
